@@ -8,6 +8,11 @@ pub mod process {
     use crate::*;
     #[derive(Debug)]
     pub struct ChildStdout { _p: () }
+    // reading the child's stdout: any number of bytes up to the buffer length, or an error
+    #[verifier::external]
+    impl std::io::Read for ChildStdout {
+        fn read(&mut self, buf: &mut [u8]) -> std::io::Result<usize> { unimplemented!() }
+    }
     pub struct ChildStderr { _p: () }
     pub struct ExitStatus { pub ok: bool }
     impl ExitStatus {
